@@ -287,7 +287,26 @@ def gen_uns(rng, big):
 TENSOR_SHAPES = [[], [], [2], [3], [2, 2]]
 
 
+def gen_bins(rng, big):
+    """per-axis binning factors given as an array / list (documented for subsample_field and make_subsampled_grid)"""
+    r = rng.random()
+    ndim = 1 if r < 0.2 else (3 if r > 0.85 else 2)
+    hi = (4 if big else 3) if ndim < 3 else 2
+    dims = [int(rng.integers(1, hi + 1)) for _ in range(ndim)]            # coarse dims, (x, y, ..)
+    ss = [int(rng.integers(1, 4)) for _ in range(ndim)]                   # factors, (x, y, ..)
+    spell = str(rng.choice(['array', 'array', 'list', 'float-array']))
+    if rng.random() < 0.25:
+        ss = [ss[0]] * ndim
+        spell = str(rng.choice(['array', 'list', 'array1', 'list1']))
+    nfine = int(np.prod([d * f for d, f in zip(dims, ss)]))
+    return {'fam': 'bin', 'dims': dims, 'ss': ss, 'spell': spell, 'stat': str(rng.choice(['sum', 'mean'])),
+            'delta': [float(rng.choice([0.25, 0.5, 1.0, 2.0])) * (-1.0 if rng.random() < 0.3 else 1.0) for _ in range(ndim)],
+            'vals': [dyadic(rng, -8, 8, 3) for _ in range(nfine)], 'give_grid': bool(rng.random() < 0.5)}
+
+
 def gen_bin(rng, big):
+    if rng.random() < 0.2:
+        return gen_bins(rng, big)
     r = rng.random()
     ndim = 1 if r < 0.15 else (3 if r > 0.88 else 2)
     s = int(rng.choice([1, 2, 2, 3, 4])) if ndim < 3 else int(rng.choice([1, 2]))
@@ -650,8 +669,68 @@ def brute_bin(p, dims, s):
     return out
 
 
+def brute_bins(p, dims, ss):
+    """sum-binning with one factor per axis; p flat (x fastest), dims and ss in (x, y, ..) order"""
+    nd = len(dims)
+    out = [Fraction(0)] * int(np.prod(dims))
+    fine = [d * f for d, f in zip(dims, ss)]
+    for idx in itertools.product(*[range(f) for f in fine[::-1]]):      # slowest first
+        flat = 0
+        cflat = 0
+        for k, i in enumerate(idx):
+            flat = flat * fine[nd - 1 - k] + i
+            cflat = cflat * dims[nd - 1 - k] + i // ss[nd - 1 - k]
+        out[cflat] += p[flat]
+    return out
+
+
+def run_bins(case):
+    import hcipy
+    bad, lines, cmps = [], [], []
+    dims, ss, stat = case['dims'], case['ss'], case['stat']
+    nd = len(dims)
+    fine = [d * f for d, f in zip(dims, ss)]
+    grid = hcipy.CartesianGrid(hcipy.RegularCoords(case['delta'], fine, [0.0] * nd))
+    arg = {'array': lambda: np.array(ss), 'list': lambda: list(ss), 'float-array': lambda: np.array(ss, dtype=float),
+           'array1': lambda: np.array(ss[:1]), 'list1': lambda: list(ss[:1])}[case['spell']]()
+    info = {'per_axis': True}
+    try:
+        new_grid = hcipy.make_subsampled_grid(grid, arg) if case['give_grid'] else None
+        res = hcipy.subsample_field(hcipy.Field(np.array(case['vals'], dtype=float), grid), arg, new_grid, statistic=stat)
+    except Exception as e:  # noqa
+        bad.append(('binning-per-axis-factors-raises', 'subsample_field(field, %r (%s), statistic=%r) on a %r grid raised %s: %s (the docstring '
+                    'promises "if this is an array, the subsampling factor will be different for each dimension")'
+                    % (ss, case['spell'], stat, fine, type(e).__name__, str(e)[:80])))
+        return bad, lines, cmps, info
+    out = np.asarray(res, dtype=float)
+    ncoarse = int(np.prod(dims))
+    rg = getattr(res, 'grid', None)
+    if list(out.shape) != [ncoarse]:
+        bad.append(('binning-shape', 'binned field has shape %r, expected %r' % (list(out.shape), [ncoarse])))
+        return bad, lines, cmps, info
+    if rg is None or rg.size != ncoarse or (new_grid is not None and rg is not new_grid) or [int(d) for d in rg.dims] != dims:
+        bad.append(('binning-grid', 'binned field does not live on the coarse grid %r' % (dims,)))
+    p = frl(case['vals'])
+    want = brute_bins(p, dims, ss)
+    if stat == 'mean':
+        want = [x / int(np.prod(ss)) for x in want]
+    err = cmp_vals([float(x) for x in out], want)
+    if err is None or err > TOL:
+        bad.append(('binning-value', '%s-binning by the per-axis factors %r differs from the brute-force bins' % (stat, ss)))
+    lines.append('C18 bins %s %s %s %s' % (stat, '[' + ','.join(str(f) for f in ss[::-1]) + ']', '[' + ','.join(str(d) for d in dims[::-1]) + ']', rat_list(case['vals'])))
+    cmps.append(('bins', [float(x) for x in out], {}))
+    if stat == 'sum':
+        # the closed form of the index map (`boxSums`, theorem bins_pixel), every coarse pixel
+        lines.append('C18 binpix %s %s %s' % ('[' + ','.join(str(f) for f in ss[::-1]) + ']', '[' + ','.join(str(d) for d in dims[::-1]) + ']', rat_list(case['vals'])))
+        cmps.append(('binpix', [float(x) for x in out], {}))
+        info['binpix'] = 1
+    return bad, lines, cmps, info
+
+
 def run_bin(case):
     import hcipy
+    if 'ss' in case:
+        return run_bins(case)
     bad, lines, cmps = [], [], []
     dims, s, tshape, stat = case['dims'], case['s'], case['tshape'], case['stat']
     nd = len(dims)
@@ -720,6 +799,7 @@ def run_bin(case):
                 bad.append(('binning-tensor-dependent', 'component %d binned alone differs from the same component of the binned tensor field' % k))
                 break
     cd = '[' + ','.join(str(d) for d in dims[::-1]) + ']'
+    npix = 0
     if weighted:
         for k in range(ncomp):
             lines.append('C18 binw %d %s %s %s' % (s, cd, rat_list(comps_in[k]), rat_list([float(x) for x in w])))
@@ -727,11 +807,19 @@ def run_bin(case):
     elif ncomp > 1 and stat == 'sum':
         lines.append('C18 bint %d %s %d %s' % (s, cd, ncomp, rat_list(arr.ravel())))
         cmps.append(('bint', [float(x) for x in out.ravel()], {}))
-    else:
+    if ncomp > 1 and not weighted:
+        # the reshape the code performs: tensor axes in front of the (n, s) pairs, one reduction (`binTensorL`)
+        lines.append('C18 bintl %s %s %s %s %s' % (stat, '[' + ','.join([str(s)] * nd) + ']', cd, '[' + ','.join(str(t) for t in tshape) + ']', rat_list(arr.ravel())))
+        cmps.append(('bintl', [float(x) for x in out.ravel()], {}))
+    if not weighted and not (ncomp > 1 and stat == 'sum'):
         for k in range(ncomp):
             lines.append('C18 bin %s %d %s %s' % (stat, s, cd, rat_list(comps_in[k])))
             cmps.append(('bin', [float(x) for x in comps_out[k]], {}))
-    return bad, lines, cmps, {'weighted': weighted, 'ncomp': ncomp}
+            if stat == 'sum':
+                lines.append('C18 binpix %s %s %s' % ('[' + ','.join([str(s)] * nd) + ']', cd, rat_list(comps_in[k])))
+                cmps.append(('binpix', [float(x) for x in comps_out[k]], {}))
+                npix += 1
+    return bad, lines, cmps, {'weighted': weighted, 'ncomp': ncomp, 'binpix': npix}
 
 
 def run_ss(case):
@@ -1207,6 +1295,9 @@ DIRECTED = [
      'affine': [0.5, [1.0, -2.0]], 'pts': [[1.0, 1.0], [0.5, 1.5], [1.75, 0.25], [3.0, 3.0]], 'route': 'dispatch-fill0'},
     {'fam': 'uns', 'cloud': 'collinear', 'pts_src': [[0.0, 0.0], [2.0, 1.0], [1.0, 0.5], [-1.0, -0.5]], 'vals': [1.0, 2.0, 3.0, 4.0],
      'pts': [[0.5, 0.25], [1.75, 1.0], [-3.0, 2.0], [0.0, 0.0]], 'route': 'dispatch'},
+    {'fam': 'bin', 'dims': [2, 3], 'ss': [2, 3], 'spell': 'array', 'stat': 'sum', 'delta': [1.0, 0.5], 'vals': [float((5 * i) % 13) for i in range(36)], 'give_grid': False},
+    {'fam': 'bin', 'dims': [3, 2], 'ss': [1, 2], 'spell': 'list', 'stat': 'mean', 'delta': [1.0, -1.0], 'vals': [float((3 * i) % 7) for i in range(12)], 'give_grid': True},
+    {'fam': 'bin', 'dims': [2, 2], 'ss': [2, 2], 'spell': 'array1', 'stat': 'sum', 'delta': [1.0, 1.0], 'vals': [float(i) for i in range(16)], 'give_grid': False},
     {'fam': 'bin', 'dims': [2, 1], 's': 2, 'tshape': [], 'regular': True, 'delta': [1.0, 1.0], 'stat': 'sum', 'vals': [1.0, 2, 3, 4, 5, 6, 7, 8], 'give_grid': False},
     {'fam': 'bin', 'dims': [2, 3], 's': 3, 'tshape': [2], 'regular': True, 'delta': [0.5, 2.0], 'stat': 'mean', 'vals': [float((7 * i) % 11) for i in range(108)], 'give_grid': True},
     {'fam': 'bin', 'dims': [2, 2], 's': 2, 'tshape': [], 'regular': False, 'axes': [[0.0, 1.0, 3.0, 3.5], [0.0, 0.5, 1.0, 4.0]], 'stat': 'mean',
@@ -1251,12 +1342,22 @@ def check_case(ctx, case, all_lines, index):
         ctx.count('uns:points_on_hull_boundary', info['n_boundary'])
         ctx.count('uns:' + ('affine' if 'affine' in case else 'random-values'))
         sig = (fam, case.get('cloud', 'scattered'), case.get('order'), info['n_src'], 'affine' in case, case['route'], info['npts'])
+    elif fam == 'bin' and 'ss' in case:
+        ctx.count('bins:ndim=%d' % len(case['dims']))
+        ctx.count('bins:spelling:' + case['spell'])
+        ctx.count('bins:' + ('uniform-factors' if len(set(case['ss'])) == 1 else 'different-factors'))
+        ctx.count('bins:stat:' + case['stat'])
+        ctx.count('binpix:images', info.get('binpix', 0))
+        sig = (fam, tuple(case['dims']), tuple(case['ss']), case['spell'], case['stat'])
     elif fam == 'bin':
         ctx.count('bin:ndim=%d' % len(case['dims']))
         ctx.count('bin:s=%d' % case['s'])
         ctx.count('bin:dirs:' + (''.join('d' if d < 0 else 'u' for d in case['delta']) if case['regular'] else dirs_of(case['axes'])))
         ctx.count('bin:stat:' + case['stat'])
         ctx.count('bin:tensor_shape:%s' % (case['tshape'],))
+        if info.get('ncomp', 1) > 1 and not info.get('weighted'):
+            ctx.count('bintl:' + case['stat'])
+        ctx.count('binpix:images', info.get('binpix', 0))
         ctx.count('bin:' + ('regular' if case['regular'] else 'separated-weighted' if case['stat'] == 'mean' else 'separated'))
         sig = (fam, tuple(case['dims']), case['s'], tuple(case['tshape']), case['stat'], case['regular'])
     elif fam == 'scale':
@@ -1302,8 +1403,26 @@ def compare_model(ctx, out, case, cmps, base, had_bad):
             return
         body = resp[3:]
         if stream == 'near-uns':
+            body, sep_, first = body.partition(' first ')
+            if not sep_:
+                raise MachineryError('near-uns response without the nearestUnstructured values: %r' % resp[:80])
             groups = [] if body == '-' else [parse_vals(g) for g in body.split(';')]
+            first = parse_vals(first)
             skip = opt.get('skip') or set()
+            # `nearestUnstructured` (the definition the theorems speak about) must pick one of the minimisers, and where
+            # the closest sample value is unique the real interpolator must return exactly that value
+            if len(first) != len(groups) or any(f is None or f not in grp for f, grp in zip(first, groups)):
+                raise MachineryError('nearestUnstructured is not among the minimisers: %r' % resp[:200])
+            for i, (g, f, grp) in enumerate(zip(got, first, groups)):
+                if i in skip:
+                    continue
+                if len(set(grp)) == 1:
+                    ctx.count('near-uns:unique-closest-value')
+                    if g != float(f):
+                        ctx.disagree('C18 near-uns first', {'case': case, 'model': resp, 'impl': got, 'index': i})
+                        return
+                else:
+                    ctx.count('near-uns:tie-between-different-values')
             ctx.boundary_skipped += len(skip)
             if len(groups) != len(got) or any(g not in [float(v) for v in grp] for i, (g, grp) in enumerate(zip(got, groups)) if i not in skip):
                 ctx.disagree('C18 near-uns', {'case': case, 'model': resp, 'impl': got})
@@ -1331,13 +1450,16 @@ def compare_model(ctx, out, case, cmps, base, had_bad):
 
 
 def run(ctx):
-    ctx.rule = ('four families, equal shares: (sep) linear and nearest interpolators on regular and irregular separated source '
+    ctx.rule = ('six families, equal shares: (sep) linear and nearest interpolators on regular and irregular separated source '
                 'grids, 1-3 D, non-square / square with different axes / square, affine or random sample values, evaluated on '
                 'unstructured, separated, regular grids or the source grid itself, points on knots, on cell midpoints (nearest '
                 'ties), inside and outside the domain, through the dispatcher and the direct constructors; (uns) the same on '
                 'scattered 2-D grids, the simplex SciPy picks is handed to the model; (bin) subsample_field sum/mean, factor 1-4, '
-                '1-3 D, scalar and tensor fields, regular and separated (weighted-mean) grids; (ss) evaluate_supersampled of '
-                'affine and quadratic generators, scalar and per-axis oversampling, mean and sum. Non-trivial = every case '
+                '1-3 D, scalar and tensor fields, regular and separated (weighted-mean) grids, one fifth with per-axis factors given as array / list '
+                '(op bins); (ss) evaluate_supersampled of '
+                'affine and quadratic generators, scalar and per-axis oversampling, mean and sum; (scale) the interpolators at '
+                'physical scales 2^-30 .. 2^20 and 1e-9 .. 1e6 on nearly-equal evaluation grids; (reuse) grid objects used again '
+                'after in-place / copying reverse, scale, shift. Non-trivial = every case '
                 '(each evaluates at least one interpolant or bin); distinct by family-specific shape signature.')
     ctx.assumptions += ['scipy RegularGridInterpolator / LinearNDInterpolator / NearestNDInterpolator meet their specification',
                         'the Delaunay simplex containing each evaluation point is read from the SciPy object inside the interpolator closure',
